@@ -2,7 +2,7 @@
 From Coq Require Import List NArith ZArith Bool Arith String.
 Import ListNotations.
 Require Import Scan Pos DQ SQ.
-Require Emit EmitGrows EmitLemmas EmitPrefix.
+Require Emit EmitGrows EmitLemmas EmitPrefix EmitSafe.
 
 (* KIND C05_double_quoted_scalar_roundtrip : U *)
 (* for EVERY text t over printable ASCII (spaces, apostrophes included), the 15 single-letter escapes and \xHH code points,
@@ -30,6 +30,35 @@ Eval vm_compute in "ASSUME:C05_single_quoted_scalar_roundtrip"%string. Print Ass
 Theorem C05_emit_prefix_monotone : forall es1 es2 s, exists d, fst (Emit.emit_all (es1 ++ es2)%list s) = (fst (Emit.emit_all es1 s) ++ d)%list.
 Proof. exact EmitPrefix.l_emit_prefix_monotone. Qed.
 Eval vm_compute in "ASSUME:C05_emit_prefix_monotone"%string. Print Assumptions C05_emit_prefix_monotone.
+
+(* KIND C05_emitter_total : U *)
+(* for EVERY list of events - well-formed or not, of any length and nesting - and every option set (canonical, allow_unicode, indent, width,
+   line break): the run of the emitter model ends normally or with an EmitterError; it never crashes (no IndexError from the stacks of states
+   and indents or from the scalar writers' indices, no TypeError from a missing event or from write_plain on a text with line breaks - the
+   analysis never allows that style) and the event queue never needs more than its look-ahead.  Proofs/EmitSafe.v: a weakest-precondition
+   calculus over the emitter monad, an invariant on the stack of continuation states / saved indents / cached analysis, all 18 states *)
+Theorem C05_emitter_total : forall evs canon allow_uni ind width lb,
+  EmitSafe.fine (snd (Emit.emit_all evs (Emit.init canon allow_uni ind width lb))).
+Proof. exact EmitSafe.emitter_never_crashes. Qed.
+Eval vm_compute in "ASSUME:C05_emitter_total"%string. Print Assumptions C05_emitter_total.
+(* KIND C05_emit_keeps_invariant : U *)
+(* the same per call of emit(): from every state that satisfies the invariant GI (what holds between two calls) one more event gives
+   a state that satisfies it again, or an EmitterError *)
+Theorem C05_emit_keeps_invariant : forall e s, EmitSafe.GI s ->
+  match Emit.emit1 e s with Emit.Ok (_, s') => EmitSafe.GI s' | Emit.EmitErr _ _ => True | _ => False end.
+Proof. exact EmitSafe.emit_keeps_invariant. Qed.
+Eval vm_compute in "ASSUME:C05_emit_keeps_invariant"%string. Print Assumptions C05_emit_keeps_invariant.
+(* KIND C05_emitter_total_nonvacuous : F *)
+(* `fine` can fail: outside the invariant the model crashes exactly where Python would (write_plain on a text ending in a line break: TypeError;
+   pop of an empty stack of states: IndexError); an ill-formed stream ends with an EmitterError and a well-formed one with its text *)
+Example C05_emitter_total_nonvacuous :
+  let s0 := Emit.init false false None None [10%N] in
+  (match Emit.write_plain [97%N; 10%N] true s0 with Emit.Crash Emit.TypeError _ => True | _ => False end) /\
+  (match Emit.pop_state s0 with Emit.Crash Emit.IndexError _ => True | _ => False end) /\
+  (match snd (Emit.emit_all [Emit.EStreamStart; Emit.ESeqEnd] s0) with Emit.EmitErr _ _ => True | _ => False end) /\
+  fst (Emit.emit_all [Emit.EStreamStart; Emit.EDocStart false None []; Emit.EScalar None None true false [97%N] None; Emit.EDocEnd false; Emit.EStreamEnd] s0)
+    = [[97%N]; [10%N]; [46%N; 46%N; 46%N]; [10%N]].
+Proof. exact EmitSafe.crash_is_possible. Qed.
 
 (* PARTIAL (FULL: forall v opts, load (dump v opts) ~ v): only the double-quoted scalar layer (the universal fallback style)
    without folding is a theorem.  Value<->node, node<->event and the other four scalar styles are decided by the
